@@ -210,8 +210,10 @@ def gen_num_expr(rng, depth):
     return {"left": "(", "binOp": e, "right": ")"}
 
 
-def gen_bool_expr(rng, depth):
+def gen_bool_expr(rng, depth, top=False):
     r = rng.random()
+    if top and rng.random() < 0.08:
+        return rng.choice(EXPR_NUM_PATHS)  # a number as whole condition: non-zero is true
     if depth <= 0 or r < 0.3:
         return rng.choice(BOOL_PATHS)
     if r < 0.6:
@@ -230,7 +232,11 @@ def strip_outer_paren(e):
 
 
 def gen_guard(rng):
-    """while-loop guard: falsified by the terminator value (b=false everywhere)"""
+    """while-loop guard: falsified by the terminator value (b=false, numbers 0 everywhere)"""
+    if rng.random() < 0.15:
+        # a guard of type number (count-down style): non-zero is true
+        p = rng.choice(EXPR_NUM_PATHS)
+        return p if rng.random() < 0.7 else {"binOp": "*", "left": p, "right": rng.choice([1, 2, 0.5, -1])}
     base = rng.choice(BOOL_PATHS)
     r = rng.random()
     if r < 0.5:
@@ -354,7 +360,7 @@ class Gen:
             return {"k": "par", "calls": [self.call(callees, lv) for _ in range(rng.randint(1, 3))]}
         if k == "cond":
             failed = self.gen_block(depth - 1, callees, ctx) if rng.random() < 0.5 else None
-            return {"k": "cond", "e": strip_outer_paren(gen_bool_expr(rng, 2)),
+            return {"k": "cond", "e": strip_outer_paren(gen_bool_expr(rng, 2, top=True)),
                     "passed": self.gen_block(depth - 1, callees, ctx), "failed": failed}
         if k == "cloop":
             v = self.fresh_loopvar(lv)
